@@ -10,6 +10,7 @@
 mop g_pool[POOL]; unsigned g_npool; bx_call g_calls[CMAX]; unsigned g_ncalls; int verif_raised;
 static mtree g_kids[BX_N]; static mtree T; static mlayout L; static mbindings g_root; mbindings g_bn; muprefs g_up;
 _Bool g_has_local[NATOMS], g_has_upv[NATOMS]; mbinding g_local[NATOMS]; mupref g_upv[NATOMS]; midmap g_refd;
+unsigned g_npreds; const mtree *g_pred_tree; const mlayout *g_pred_lay; const mbindings *g_pred_scope; const muprefs *g_pred_up; unsigned long g_pred_rdv;
 unsigned g_nbinds; const mbindings *g_bind_scope; matom g_bind_name; const mop *g_bind_op; const mlayout *g_rdv_lay; unsigned long g_rdv_inner;
 int nondet_int(void); _Bool nondet_bool(void);
 static unsigned long L0, g_rdv;
@@ -22,7 +23,7 @@ static mop *run(int tt, unsigned long n)
   T.m_tt = tt; T.m_children.d = g_kids; T.m_children.n = n;
   L.m_size = nondet_ulong(); __CPROVER_assume(L.m_size <= (1UL << 40)); L0 = L.m_size;
   g_bn.m_super = &g_root; g_root.m_super = 0; g_rdv = nondet_ulong();
-  g_npool = 0; g_ncalls = 0; g_nbinds = 0; verif_raised = 0;
+  g_npool = 0; g_ncalls = 0; g_nbinds = 0; g_npreds = 0; verif_raised = 0; T.m_cstval = nondet_ulong();
 #ifdef BX_ATOM
   T.m_str = BX_ATOM;       /* which atom the name is is immaterial: the tables are symmetric in the atoms */
 #else
@@ -300,6 +301,22 @@ void h_bx_format(void)
   CHECK(cur == r->a[1], "the chain of pieces, in written order, ends in the stringer origin");
 }
 #endif
+
+/* ---- C04 wiring: sub-expression evaluation and assertions ---- */
+void h_bx_subx_eval(void)
+{
+  mop *r = run(tree_type__SUBX_EVAL, 1); check_one_sub(r, K_SUBX);
+  CHECK(r->extra == T.m_cstval, "the operator keeps as many values of the sub-expression's result as the parser recorded");
+  CHECK(r->lay == &L && r->lo >= g_calls[0].exit, "its own state lies beyond the sub-expression's states");
+}
+void h_bx_assert(void)
+{
+  mop *r = run(tree_type__ASSERT, 1);
+  CHECK(r->kind == K_ASSERT && r->a[0] == g_upstream, "an assertion is an op_assert on the current upstream");
+  CHECK(g_npreds == 1 && r->extra == 4242, "driven by the one predicate built for it");
+  CHECK(g_pred_tree == &g_kids[0] && g_pred_lay == &L && g_pred_scope == &g_bn && g_pred_up == &g_up && g_pred_rdv == g_rdv, "the predicate is built from the asserted expression, in the current scope, layout and block");
+  CHECK(g_ncalls == 0, "nothing else is built");
+}
 #ifdef VERIF_CONTROL
 void h_bx_control(void) { mop *r = run(tree_type__SCOPE, 1); CHECK(g_calls[0].scope == &g_bn, "CONTROL: deliberately false (the body's scope is a new one)"); }
 #endif
